@@ -12,8 +12,8 @@
    peepholes -- the code the theorems speak of), by the assembler model AsmLayout.assemble_directives.  All
    hypotheses about the image are established by computation through the ISA's own decoder (XCodegenImage). *)
 From Coq Require Import ZArith List String Bool Lia.
-From HexVerif Require Import WMap Isa XAst XSem XConstProp AsmModel AsmLayout AsmSpec AsmSpecProofs
-     XCodegenIsa XCodegenInv XCodegenExpr XCodegenStmt XCodegenCall XCodegenImage.
+From HexVerif Require Import WMap Isa XAst XSem XSemProps XConstProp AsmModel AsmLayout AsmSpec AsmSpecProofs
+     XCodegenIsa XCodegenInv XCodegenExpr XCodegenStmt XCodegenCall XCodegenImage XCodegenProgram.
 Import ListNotations.
 Local Open Scope string_scope.
 Local Open Scope Z_scope.
@@ -61,10 +61,6 @@ Definition demo_pinfo (x : string) : option pframe :=
 Definition L_cd : playout := {| pl_size := 5; pl_nslots := 1; pl_og := 4; pl_exit := 0; pl_n0 := 1 |}.
 Definition L_main : playout := {| pl_size := 3; pl_nslots := 0; pl_og := 3; pl_exit := 20; pl_n0 := 21 |}.
 Definition L_fd : playout := {| pl_size := 3; pl_nslots := 0; pl_og := 3; pl_exit := 40; pl_n0 := 41 |}.
-Definition demo_lay (x : string) : option playout :=
-  if String.eqb x "cd" then Some L_cd else if String.eqb x "main" then Some L_main
-  else if String.eqb x "fd" then Some L_fd else None.
-
 Definition body_code (p : proc) (L : playout) : option (list instr * label) :=
   cs demo_pinfo (frame_venv demo_gaddr p (pl_size L)) demo_pool (pl_size L) (pl_nslots L) (first_temp p) (pl_og L)
      (pl_exit L) (body p) (pl_n0 L).
@@ -193,7 +189,7 @@ Proof.
 Qed.
 
 (* every hypothesis of the call theorems holds for the demo *)
-Lemma demo_hyps : prog_hyps demo_ge demo_gaddr demo_pool demo_P demo_m0 demo_lab demo_pinfo demo_lay demo_stack_lo demo_maxframe.
+Lemma demo_hyps : prog_hyps demo_ge demo_gaddr demo_pool demo_P demo_m0 demo_lab demo_pinfo demo_stack_lo demo_maxframe.
 Proof.
   unfold prog_hyps. split; [|split; [|split; [|split; [|split; [|split; [|split]]]]]].
   - intros p pi Hp. unfold demo_pinfo in Hp.
@@ -201,17 +197,17 @@ Proof.
     + apply String.eqb_eq in E1. subst p. inversion Hp; subst pi. cbn [pf_isfunc pf_entry].
       split; [vm_compute; discriminate|].
       destruct demo_code_cd as (bc & n' & Hb & Hc).
-      exists p_cd, ["n"], ["t"], L_cd, bc, n', 106. split; [reflexivity|]. split; [reflexivity|]. split; [reflexivity|].
+      exists p_cd, ["n"], ["t"], L_cd, bc, n', 106. split; [reflexivity|]. split; [reflexivity|].
       split; [exact demo_simple_cd|]. split; [vm_compute; repeat split; discriminate|]. split; [exact Hb|]. split; [exact Hc | reflexivity].
     + apply String.eqb_eq in E2. subst p. inversion Hp; subst pi. cbn [pf_isfunc pf_entry].
       split; [vm_compute; discriminate|].
       destruct demo_code_main as (bc & n' & Hb & Hc).
-      exists p_main, [], [], L_main, bc, n', 135. split; [reflexivity|]. split; [reflexivity|]. split; [reflexivity|].
+      exists p_main, [], [], L_main, bc, n', 135. split; [reflexivity|]. split; [reflexivity|].
       split; [exact demo_simple_main|]. split; [vm_compute; repeat split; discriminate|]. split; [exact Hb|]. split; [exact Hc | reflexivity].
     + apply String.eqb_eq in E3. subst p. inversion Hp; subst pi. cbn [pf_isfunc pf_entry].
       split; [vm_compute; discriminate|].
       destruct demo_code_fd as (bc & n' & Hb & Hc).
-      exists p_fd, ["k"], [], L_fd, bc, n', 54. split; [reflexivity|]. split; [reflexivity|]. split; [reflexivity|].
+      exists p_fd, ["k"], [], L_fd, bc, n', 54. split; [reflexivity|]. split; [reflexivity|].
       split; [exact demo_simple_fd|]. split; [vm_compute; repeat split; discriminate|]. split; [exact Hb|]. split; [exact Hc | reflexivity].
   - intros x a Hx. unfold demo_gaddr in Hx. destruct (String.eqb x "g") eqn:E; [|discriminate].
     apply String.eqb_eq in E. subst x. inversion Hx; subst a. unfold demo_P, demo_stack_lo.
@@ -278,7 +274,7 @@ Theorem demo_main_body_runs : forall a b inp, exists a' b' m',
 Proof.
   intros a b inp.
   destruct demo_hyps as (H1 & H2 & H3 & H4 & H5 & H6 & H7 & H8).
-  pose proof (stmt_calls_closed demo_ge demo_gaddr demo_pool demo_P demo_m0 demo_lab demo_pinfo demo_lay demo_stack_lo
+  pose proof (stmt_calls_closed demo_ge demo_gaddr demo_pool demo_P demo_m0 demo_lab demo_pinfo demo_stack_lo
                 demo_maxframe H1 H2 H3 H4 H5 H6 H7 H8 100%nat p_main [] [] L_main demo_sp demo_frame_main) as Hok.
   destruct demo_body_main as (bc & n' & Hb & Hc).
   assert (He : exists st', exec 100 demo_ge (body p_main) demo_st0 = Ret Normal st' /\
@@ -300,4 +296,38 @@ Proof.
   destruct HR' as (_ & S1 & (HVg & _) & _). split; [exact S1|].
   destruct (HVg "g" 2 eq_refl) as (_ & _ & _ & v & Hv & Hval). rewrite Hg in Hv. inversion Hv; subst v.
   destruct Hval as [Hu|(z & Hz & _ & Hw)]; [discriminate|]. inversion Hz; subst z. rewrite Hw. reflexivity.
+Qed.
+
+(* ---------------------------------------------------------------- the demo through model_compile (XCodegenProgram.v) *)
+Definition demo_frames (x : string) : option (Z * Z * Z) :=      (* size, usable slots, outgoing words: xcmp's numbers *)
+  if String.eqb x "cd" then Some (5, 1, 4) else if String.eqb x "main" then Some (3, 0, 3)
+  else if String.eqb x "fd" then Some (3, 0, 3) else None.
+
+(* opt = true: the image with the peephole pass; tools/c01.py re-checks this list against the words of the binary the
+   real xcmp writes for the X source above *)
+Example demo_model_image_opt : model_compile demo_frames true demo = Some
+  (* XCMP-IMAGE *)
+  [159; 199997; 0; 0; 295167314; 299074096; 3510501248; 815949089; 933441937; 1694604445; 2182206017; 26803794;
+   2215743585; 1931596083; 4286583248; 1713492283; 298926307; 813830532; 3543237393; 285368577; 19059062; 2435883622;
+   26845489; 298991974; 2516406913; 567358737; 2148651125; 567361023; 288563760; 2449232513; 1384255746; 1627494905;
+   3509784866; 13660961].
+Proof. vm_compute. reflexivity. Qed.
+
+(* opt = false: the validated image of the lowered code, the one program_correct speaks of *)
+Definition demo_image : list Z :=
+  [159; 199997; 0; 0; 295429458; 299074096; 3510501248; 2724528417; 2737934640; 27041079; 298991973; 2550026882;
+   294674689; 567358340; 2148651123; 567360511; 1088644609; 25432529; 813830500; 3543237393; 285368577; 19059062;
+   2435883622; 26845489; 298991974; 2466075265; 567358737; 2148651125; 567361023; 288563760; 2667270785; 1384255746;
+   1627493881; 3509784866; 13660961].
+Lemma demo_model_image : model_compile demo_frames false demo = Some demo_image.
+Proof. vm_compute. reflexivity. Qed.
+
+(* the end-to-end theorem applied to the demo: its image shows the spec's behaviour -- from program_correct, not by
+   running the ISA *)
+Theorem demo_end_to_end : exists n,
+  isa_shows demo_image [] n {| outputs := [(0, 51); (0, 50); (0, 49); (0, 48)]; consumed := 0; exit_value := 0 |}.
+Proof.
+  apply (program_correct demo_frames demo [] _ demo_image); [|exact demo_model_image].
+  apply (run_of_smaller_fuel 100); [unfold default_fuel; apply Nat2Z.inj_le; rewrite Z2Nat.id; lia|].
+  vm_compute. reflexivity.
 Qed.
